@@ -128,7 +128,9 @@ def parse_compile(body):
     # registers[i] = { let addr = self.F.addr(); ... }
     regs = {}
     for n in walk(body):
-        if n[0] == "assign" and is_node(n[1]) and n[1][0] == "index" and path_of(n[1][1]) == "registers":
+        # the register array is whatever local is assigned by constant index from an `.addr()` value (no dependence on its spelling)
+        if n[0] == "assign" and is_node(n[1]) and n[1][0] == "index" and path_of(n[1][1]) and "::" not in path_of(n[1][1]) \
+                and any(m[2] == "addr" for m in find(n[2], "mcall")):
             idx = n[1][2]
             if is_node(idx) and idx[0] == "int":
                 fld = None
@@ -137,7 +139,7 @@ def parse_compile(body):
                         fld = self_field(m[1]) or render(m[1])
                         break
                 regs[int(idx[1])] = fld
-        if n[0] == "mcall" and n[2] in EMIT and path_of(n[1]) == "ctx":
+        if n[0] == "mcall" and n[2] in EMIT and path_of(n[1]) and "::" not in path_of(n[1]):   # the compile context: whatever local receives emit_*
             info["emit"] = n[2]
             info["arity"] = EMIT[n[2]]
             info["emit_args"] = [render(a) for a in n[4]]
@@ -150,7 +152,8 @@ def parse_new(body, selfname):
     """match args { FunctionArgs::Binary(out, arg1, arg2) => { let f: T = unsafe{argN.as_unchecked()}.clone(); Ok(Box::new(Self{..})) } }"""
     res = []
     for m in find(body, "match"):
-        if path_of(m[1]) != "args":
+        # the argument pack is whatever the match over FunctionArgs::* patterns scrutinises (no dependence on the parameter's spelling)
+        if not any(arm[0][0] == "pts" and str(arm[0][1]).startswith("FunctionArgs::") for arm in m[2]):
             continue
         for arm in m[2]:
             p = arm[0]
